@@ -1,5 +1,6 @@
 import FiberModel.DriverUtil
 import FiberModel.C20.Spec
+import FiberModel.C20.CookieScan
 /-
 Driver for C20. Case fields (after the id):
   key(hex) except(hexlist) mode(0|1|2) okey(hex, harness only) steps(symbolic, harness only) aux obs
@@ -43,6 +44,8 @@ structure AuxStep where
   pre : List RCookie
   postParse : List (Bytes × Bytes × Bytes)     -- pkey, pvalue, tail of each cookie after the middleware
   opens : List (Option Bytes)                  -- independent open of each value after the middleware
+  stored : List Bytes                          -- Cookie header values as fasthttp stored them
+  direct : Jar                                 -- SetCookie calls made on top
 
 def sect (tag : Char) (s : String) : Except String String :=
   match s.toList with
@@ -51,7 +54,7 @@ def sect (tag : Char) (s : String) : Except String String :=
 
 def parseAuxStep (s : String) : Except String AuxStep := do
   match s.splitOn "/" with
-  | [j, k, r, p, t] =>
+  | [j, k, r, p, t, q, d] =>
     let jar ← parseJar (← sect 'J' j)
     let ks ← (listOf (← sect 'K' k)).mapM comp
     let pre ← (listOf (← sect 'R' r)).mapM fun e => match e.splitOn ":" with
@@ -64,7 +67,9 @@ def parseAuxStep (s : String) : Except String AuxStep := do
     let ops ← (listOf (← sect 'T' t)).mapM fun e =>
       if e == "x" then pure none else do pure (some (← comp e))
     if pp.length != ops.length then throw "outside-domain: P/T length"
-    pure { jar := jar, lookKeys := ks, pre := pre, postParse := pp, opens := ops }
+    let stored ← (listOf (← sect 'Q' q)).mapM comp
+    let direct ← parseJar (← sect 'D' d)
+    pure { jar := jar, lookKeys := ks, pre := pre, postParse := pp, opens := ops, stored := stored, direct := direct }
   | _ => throw "outside-domain: aux step sections"
 
 structure ObsStep where
@@ -148,7 +153,13 @@ def handleCase (f : List String) : Except String Verdict := do
     let mut tags : List String := []
     for (a, o) in auxs.zip obss do
       let (mtxt, _, e) := renderStep ex C wc a
-      modelParts := modelParts ++ [mtxt]
+      -- the cookie scanner model must reproduce fasthttp's view of the request and of every Set-Cookie
+      let scanOK := parseCookieHeaders a.stored a.direct == a.jar &&
+        (a.pre.all fun c => scanSetCookie c.raw == (c.pkey, c.pvalue)) &&
+        (match o.wire with
+         | none => true
+         | some ws => (ws.zip a.postParse).all fun (kr, pp) => scanSetCookie kr.2 == (pp.1, pp.2.1))
+      modelParts := modelParts ++ [if scanOK then mtxt else "scanner-model-mismatch:" ++ mtxt]
       -- spec oracle on the implementation's observation
       if spec.isNone then
         spec := reqViolation wc ex iss a.jar o.views
